@@ -1658,6 +1658,410 @@ def structured_sweep(ctx):
                     ctx.nontriv({"kind": "structured", "class": tag, "position": pos, "sizes": sizes, "n": len(specs)})
 
 
+# ----------------------------------------------------------------------------- round 4: control instructions, special angles
+import math as _math, io as _io, contextlib as _contextlib
+
+CTRL_KINDS = ("Barrier", "Measure", "Delay")
+R4_PREFIX = {"ctrl_program": "circuit-with-control-instructions", "special_angles": "special-angles"}
+# StatevectorSimulator.run used to call as_circuit_matrix on EVERY element of circ.gates and raised AttributeError for a
+# circuit holding a control instruction, while as_matrix / as_tensornet / the TN simulator skip control instructions: a
+# circuit whose statevector simulation is not column 0 of its matrix.  Repaired in /repo (fix: statevector simulator
+# skips control instructions); reported under this name if it ever returns
+SV_ON_CTRL = "circuit-with-control-instructions:statevector:raises-AttributeError-on-the-instruction"
+_TWO_PI = 2 * _math.pi
+SPECIAL_ANGLES = sorted(set(float(x) for x in [0.0, _math.pi, -_math.pi] + [_TWO_PI * k for k in range(-3, 4)]
+                            + [_math.pi * k for k in range(-6, 7)] + [2 * np.pi, -2 * np.pi, 4 * np.pi, -4 * np.pi, 6 * np.pi, -6 * np.pi]))
+_XX = np.kron(np.array(_PLAIN_ONE["X"]), np.array(_PLAIN_ONE["X"]))
+_YY = np.kron(np.array(_PLAIN_ONE["Y"]), np.array(_PLAIN_ONE["Y"]))
+_ZZ = np.kron(np.array(_PLAIN_ONE["Z"]), np.array(_PLAIN_ONE["Z"]))
+
+
+def is_ctrl(spec):
+    return spec[0] in CTRL_KINDS
+
+
+def element_particles(spec):
+    if spec[0] in ("Barrier", "Measure"):
+        return [tuple(p) for p in spec[1]]
+    if spec[0] == "Delay":
+        return [tuple(p) for p in spec[2]]
+    return spec_particles(spec)
+
+
+def element_fields(spec):
+    """fields() of a circuit element, in the order the element lists them"""
+    if is_ctrl(spec):
+        return [p[0] for p in element_particles(spec)]
+    return spec_particles_fields(spec)
+
+
+def build_element(spec, F):
+    import qib
+    k = spec[0]
+    if k == "Barrier":
+        return qib.BarrierInstruction([qubit(F, p) for p in spec[1]])
+    if k == "Measure":
+        qs = [qubit(F, p) for p in spec[1]]
+        return qib.MeasureInstruction(qs, list(spec[2])) if len(spec) > 2 and spec[2] is not None else qib.MeasureInstruction(qs)
+    if k == "Delay":
+        return qib.DelayInstruction(spec[1], [qubit(F, p) for p in spec[2]])
+    return build_gate(spec, F)
+
+
+def plain_matrix4(spec):
+    """plain_matrix, and the two-qubit rotations / the rotation about an axis (also as targets of controlled gates)"""
+    k = spec[0]
+    if k in ("Rxx", "Ryy", "Rzz"):
+        P = {"Rxx": _XX, "Ryy": _YY, "Rzz": _ZZ}[k]
+        return _math.cos(spec[1] / 2.0) * np.identity(4, dtype=complex) - 1j * _math.sin(spec[1] / 2.0) * P
+    if k == "Rot":
+        v = np.array(spec[1], dtype=float)
+        th = float(np.sqrt(np.sum(v * v)))
+        if th == 0:
+            return np.identity(2, dtype=complex)
+        n = v / th
+        S = n[0] * np.array(_PLAIN_ONE["X"]) + n[1] * np.array(_PLAIN_ONE["Y"]) + n[2] * np.array(_PLAIN_ONE["Z"])
+        return _math.cos(th / 2.0) * np.identity(2, dtype=complex) - 1j * _math.sin(th / 2.0) * S
+    if k == "Sx":
+        return 0.5 * np.array([[1 + 1j, 1 - 1j], [1 - 1j, 1 + 1j]], dtype=complex)
+    if k == "C":
+        U = plain_matrix4(spec[3])
+        d = U.shape[0]
+        ic = 0
+        for b in spec[1]:
+            ic = 2 * ic + int(b)
+        M = np.identity(d * 2 ** len(spec[1]), dtype=complex)
+        M[ic * d:(ic + 1) * d, ic * d:(ic + 1) * d] = U
+        return M
+    return plain_matrix(spec)
+
+
+def _spec_kinds(spec, out):
+    out.add(spec[0])
+    if spec[0] == "C":
+        _spec_kinds(spec[3], out)
+    if spec[0] == "Mux":
+        for t in spec[2]:
+            _spec_kinds(t, out)
+    return out
+
+
+def oracle_r4(ctx, sizes, specs, desc):
+    """views of one circuit given as a list of elements (gate specs and control instructions ["Barrier", particles] /
+    ["Measure", particles, clbits or None] / ["Delay", duration, particles]) against the ordered product of the PLAIN numpy
+    matrices of its gates over circ.fields() (= fields in order of first appearance in ANY element): as_matrix,
+    contracted as_tensornet, TensorNetworkSimulator, StatevectorSimulator, and the two simulators against each other.
+    The library's notice about control instructions goes to a string"""
+    with _contextlib.redirect_stdout(_io.StringIO()):
+        with field_mode(desc.get("fmode")):
+            return _oracle_r4(ctx, sizes, specs, desc)
+
+
+def _oracle_r4(ctx, sizes, specs, desc):
+    import qib
+    from qib.tensor_network.tensor_network import to_full_tensor
+    pre = R4_PREFIX[desc["kind"]]
+    tol = 1e-9
+    F = mk_fields(sizes)
+    order = []
+    for s_ in specs:
+        for fi in element_fields(s_):
+            if fi not in order:
+                order.append(fi)
+    nw = sum(sizes[i] for i in order)
+    gate_specs = [s_ for s_ in specs if not is_ctrl(s_)]
+    has_ctrl = len(gate_specs) != len(specs)
+    R = np.identity(2 ** nw, dtype=complex)
+    for s_ in gate_specs:
+        R = ref_embed(nw, [wire_of(sizes, order, p) for p in spec_particles(s_)], plain_matrix4(s_)) @ R
+    try:
+        elems = [build_element(s_, F) for s_ in specs]
+        build = desc.get("build", "append")
+        if build == "ctor":
+            circ = qib.Circuit(elems)
+        else:
+            circ = qib.Circuit()
+            for e_ in (reversed(elems) if build == "prepend" else elems):
+                (circ.prepend_gate if build == "prepend" else circ.append_gate)(e_)
+    except Exception as e:
+        ctx.fail(pre + ":building-the-circuit:crash:" + type(e).__name__, desc, "circuit", repr(e)[:200])
+        return
+    got = [fidx(F, f) for f in circ.fields()]
+    if got != order:
+        ctx.fail(pre + ":fields!=order-of-first-appearance-in-any-element", desc, order, got)
+        return
+    fl = [F[i] for i in order]
+    # matrix
+    M = None
+    try:
+        M = dense(circ.as_matrix(fl))
+        if M.shape != R.shape or not np.allclose(M, R, rtol=0, atol=tol):
+            ctx.fail(pre + ":matrix!=ordered-product-of-the-plain-gate-matrices", desc,
+                     "E(g_n)...E(g_1) over circ.fields(), control instructions skipped", "differs")
+            M = None
+    except Exception as e:
+        ctx.fail(pre + ":matrix:crash:" + type(e).__name__, desc, "matrix", repr(e)[:200])
+    if M is None:
+        M = R
+    col0 = M[:, 0]
+    # statevector simulator
+    psi = None
+    try:
+        psi = np.asarray(qib.simulator.StatevectorSimulator().run(circ), dtype=complex).reshape(-1)
+    except AttributeError as e:
+        if has_ctrl and "as_circuit_matrix" in str(e):
+            ctx.fail(SV_ON_CTRL, desc, "column 0 of the circuit matrix (control instructions skipped, as in as_matrix)", repr(e)[:200])
+        else:
+            ctx.fail(pre + ":statevector:crash:AttributeError", desc, "state", repr(e)[:200])
+    except Exception as e:
+        ctx.fail(pre + ":statevector:crash:" + type(e).__name__, desc, "state", repr(e)[:200])
+    if psi is not None:
+        ctx.count(desc["kind"] + "_statevector_ran")
+        if psi.shape != col0.shape or not np.allclose(psi, col0, rtol=0, atol=tol):
+            ctx.fail(pre + ":statevector!=first-column", desc, "column 0 of as_matrix(circ.fields()) = of the ordered product",
+                     "differs (max dev %.3g)" % (float(np.abs(psi - col0).max()) if psi.shape == col0.shape else -1))
+        elif abs(np.vdot(psi, psi) - 1) > tol:
+            ctx.fail(pre + ":statevector:not-unit-norm", desc, 1, float(abs(np.vdot(psi, psi))))
+    # tensor network, tensor network simulator (Rxx / Ryy / Rzz / iSWAP: their networks are the known finding SIG_WRAP)
+    kinds = set()
+    for s_ in gate_specs:
+        _spec_kinds(s_, kinds)
+    if kinds & {"Rxx", "Ryy", "Rzz", "iSwap", "Prep"} or not desc.get("tn", True):
+        return
+    try:
+        net = circ.as_tensornet()
+        t, am = net.contract_einsum()
+        T = np.asarray(to_full_tensor(t, am), dtype=complex)
+        ctx.count(desc["kind"] + "_tensornet_ran")
+        if net.num_open_axes != 2 * nw or T.size != M.size:
+            ctx.fail(pre + ":tensornet!=matrix", desc, "%d open axes (2 per wire of circ.fields())" % (2 * nw),
+                     "%d open axes" % net.num_open_axes)
+        elif not np.allclose(T.reshape(M.shape), M, rtol=0, atol=tol):
+            ctx.fail(pre + ":tensornet!=matrix", desc, "as_matrix(circ.fields())", "differs")
+    except Exception as e:
+        ctx.fail(pre + ":tensornet:crash:" + type(e).__name__, desc, "network contracting to as_matrix(circ.fields())", repr(e)[:200])
+    try:
+        out = np.asarray(qib.simulator.TensorNetworkSimulator().run(circ), dtype=complex).reshape(-1)
+        ctx.count(desc["kind"] + "_tn_simulator_ran")
+        if out.shape != col0.shape or not np.allclose(out, col0, rtol=0, atol=tol):
+            ctx.fail(pre + ":tn-simulator!=first-column", desc, "column 0 of as_matrix(circ.fields())",
+                     "differs" if out.shape == col0.shape else "%d entries where %d expected" % (out.size, col0.size))
+        elif abs(np.vdot(out, out) - 1) > tol:
+            ctx.fail(pre + ":tn-simulator:not-unit-norm", desc, 1, float(abs(np.vdot(out, out))))
+        if psi is not None and out.shape == psi.shape and not np.allclose(out, psi, rtol=0, atol=tol):
+            ctx.fail(pre + ":statevector!=tn-simulator", desc, "the same state from both simulators", "differs")
+    except Exception as e:
+        ctx.fail(pre + ":tn-simulator:crash:" + type(e).__name__, desc, "state", repr(e)[:200])
+
+
+def r4_gate(rng, allp, special):
+    """one gate spec on particles out of allp.  special: rotation-like gates only, angles mostly out of SPECIAL_ANGLES"""
+    def angle():
+        if special and rng.random() < 0.8:
+            return rng.choice(SPECIAL_ANGLES)
+        return rng.randint(-16, 16) / 8.0
+
+    def rot1(p):
+        k = rng.choice(["Rx", "Ry", "Rz", "Rx", "Ry", "Rz", "Rot"]) if special else rng.choice(["Rx", "Ry", "Rz"])
+        if k == "Rot":
+            a = angle()
+            ax = rng.choice([[1.0, 0.0, 0.0], [0.0, 1.0, 0.0], [0.0, 0.0, 1.0], [0.6, 0.0, 0.8], [0.0, -1.0, 0.0]])
+            return ["Rot", [a * x for x in ax], p]
+        return [k, angle(), p]
+    if special:
+        kinds = ["R", "R", "C1R", "C1R", "C2R", "Rnn", "Rot"]
+    else:
+        kinds = ["one", "one", "R", "C1", "C1R", "C2", "Mux", "Rot"]
+    need_of = {"C1": 2, "C1R": 2, "C2": 3, "C2R": 3, "Mux": 2, "Rnn": 2}
+    while True:
+        k = rng.choice(kinds)
+        need = need_of.get(k, 1)
+        if need > len(allp):
+            continue
+        ps = [list(p) for p in rng.sample(allp, need)]
+        if k == "one":
+            return [rng.choice(["X", "Y", "Z", "H", "H", "S", "T", "Sdg"]), ps[0]]
+        if k in ("R", "Rot"):
+            return rot1(ps[0])
+        if k == "Rnn":
+            return [rng.choice(["Rxx", "Ryy", "Rzz"]), angle(), ps[0], ps[1]]
+        if k == "C1":
+            return ["C", [rng.randint(0, 1)], [ps[0]], [rng.choice(["X", "Y", "Z", "H"]), ps[1]]]
+        if k == "C1R":
+            return ["C", [rng.randint(0, 1)], [ps[0]], rot1(ps[1])]
+        if k == "C2":
+            return ["C", [rng.randint(0, 1), rng.randint(0, 1)], [ps[0], ps[1]], [rng.choice(["X", "Z"]), ps[2]]]
+        if k == "C2R":
+            return ["C", [rng.randint(0, 1), rng.randint(0, 1)], [ps[0], ps[1]], rot1(ps[2])]
+        if k == "Mux":
+            return ["Mux", [ps[0]], [[rng.choice(["X", "Y"]), ps[1]], [rng.choice(["Z", "H"]), ps[1]]]]
+
+
+R4_SIZES = [[1], [2], [3], [1, 1], [2, 1], [1, 2], [2, 2], [3, 1], [1, 3], [1, 1, 1], [2, 1, 1], [1, 2, 1], [1, 1, 2], [2, 1, 2], [3, 2]]
+
+
+def rand_ctrl_program(rng, sizes):
+    """1..4 gates on a subset of the fields, then 1..3 control instructions put first / in the middle / last, on a field
+    no gate touches, on any particles, or on the particles of the gates; returns (elements, position tags)"""
+    nf = len(sizes)
+    gf = list(range(nf))
+    if nf > 1 and rng.random() < 0.6:
+        gf = sorted(rng.sample(gf, rng.randint(1, nf - 1)))
+    gp = [(fi, i) for fi in gf for i in range(sizes[fi])]
+    allp = [(fi, i) for fi in range(nf) for i in range(sizes[fi])]
+    idle = [(fi, i) for fi in range(nf) if fi not in gf for i in range(sizes[fi])]
+    elems = [r4_gate(rng, gp, False) for _ in range(rng.randint(1, 4))]
+    tags = []
+    for _ in range(rng.randint(1, 3)):
+        where = rng.choice(["first", "middle", "last"])
+        pos = {"first": 0, "last": len(elems)}.get(where, rng.randint(0, len(elems)))
+        target = rng.choice(["idle", "idle", "any", "gates", "later"]) if idle else rng.choice(["any", "gates", "later"])
+        # "later": particles of fields that the elements from this position on touch, but not as the first field (the
+        # instruction, not a gate, is then the first element on that field whenever nothing before it touches it)
+        seen = [fi for e_ in elems[:pos] for fi in element_fields(e_)]
+        rest = [fi for e_ in elems[pos:] for fi in element_fields(e_) if fi not in seen]
+        later = [(fi, i) for fi in sorted(set(rest[1:]) - set(rest[:1])) for i in range(sizes[fi])]
+        if target == "later" and not later:
+            target = "any"
+        pool = {"idle": idle, "any": allp, "gates": gp, "later": later}[target]
+        ps = [list(p) for p in rng.sample(pool, rng.randint(1, min(3, len(pool))))]
+        k = rng.choice(["Barrier", "Barrier", "Measure", "Measure", "Delay", "BarrierAll"])
+        if k == "Barrier":
+            el = ["Barrier", ps]
+        elif k == "BarrierAll":
+            el = ["Barrier", []]
+        elif k == "Measure":
+            el = ["Measure", ps, rng.choice([None, rng.sample(range(8), len(ps))])]
+        else:
+            el = ["Delay", rng.choice([1, 16, 100]), ps]
+        elems.insert(pos, el)
+        tags.append(where + ":" + (target if el[1] != [] else "no-particle"))
+    gate_o = []
+    for e_ in elems:
+        if not is_ctrl(e_):
+            gate_o += [fi for fi in element_fields(e_) if fi not in gate_o]
+    if len(gate_o) >= 2 and rng.random() < 0.5:
+        # an instruction ahead of everything on the field the gates reach LAST: same set of fields, other order
+        fi = gate_o[-1]
+        ps = [[fi, i] for i in rng.sample(range(sizes[fi]), rng.randint(1, sizes[fi]))]
+        elems.insert(0, rng.choice([["Barrier", ps], ["Measure", ps, None]]))
+        tags.append("first:last-field-of-the-gates")
+    return elems, tags
+
+
+def ctrl_sweep(ctx):
+    """round 4, class 1: circuits holding control instructions"""
+    rng = ctx.rng
+    H0, RY, CX = ["H", [0, 0]], ["Ry", 0.5, [0, 1]], ["C", [1], [[0, 0]], ["X", [1, 0]]]
+    scripted = [
+        ([2, 1], [["Barrier", [[1, 0]]], H0, RY, CX]),                                  # first toucher of field 1
+        ([2, 1], [H0, ["C", [1], [[0, 0]], ["X", [0, 1]]], ["Measure", [[0, 0], [1, 0]], None]]),    # only toucher, last
+        ([1, 1], [["X", [0, 0]], ["Barrier", [[1, 0]]]]),
+        ([1, 1], [["Measure", [[1, 0]], [3]], ["H", [0, 0]]]),
+        ([1, 1], [["H", [0, 0]], ["Delay", 16, [[1, 0]]], ["T", [0, 0]]]),
+        ([2], [["Barrier", []], H0, ["Barrier", [[0, 1]]], RY, ["Measure", [[0, 1], [0, 0]], [0, 1]]]),
+        ([1, 2, 1], [["H", [1, 1]], ["Barrier", [[2, 0], [0, 0]]], ["C", [0], [[1, 0]], ["Y", [1, 1]]]]),
+        ([2, 1, 1], [["Measure", [[2, 0]], None], ["Barrier", [[1, 0]]], H0, ["C", [1], [[0, 0]], ["Ry", 0.75, [2, 0]]]]),
+    ]
+    progs = [(s_, e_, ["scripted"]) for s_, e_ in scripted]
+    for _ in range(240 if ctx.thorough else 60):
+        sizes = rng.choice(R4_SIZES)
+        e_, tags = rand_ctrl_program(rng, sizes)
+        progs.append((sizes, e_, tags))
+    for n, (sizes, elems, tags) in enumerate(progs):
+        desc = {"kind": "ctrl_program", "sizes": sizes, "specs": elems, "build": ("append", "ctor", "prepend")[n % 3]}
+        oracle_r4(ctx, sizes, elems, desc)
+        ctx.count("ctrl_program")
+        ctx.count("ctrl_program_build_" + desc["build"])
+        for t in tags:
+            ctx.count("ctrl_program_instruction_" + t)
+        for e_ in elems:
+            if is_ctrl(e_):
+                ctx.count("ctrl_program_" + e_[0])
+        all_o, gate_o = [], []
+        for e_ in elems:
+            for fi in element_fields(e_):
+                if fi not in all_o:
+                    all_o.append(fi)
+                if not is_ctrl(e_) and fi not in gate_o:
+                    gate_o.append(fi)
+        if set(all_o) != set(gate_o):
+            ctx.count("ctrl_program_instruction_is_the_only_element_on_a_field")
+        if [fi for fi in all_o if fi in gate_o] != gate_o:
+            ctx.count("ctrl_program_instruction_is_the_first_element_on_a_field_of_a_later_gate")
+        if all_o != gate_o:
+            # what the sweep is after: the circuit's field list is not the field list of its gates
+            ctx.nontriv({"kind": "ctrl_program", "sizes": sizes, "fields": all_o, "fields_of_gates": gate_o,
+                         "elements": [e_[0] for e_ in elems]})
+
+
+def rand_special_program(rng, sizes):
+    """Hadamards (phases show), 1..4 rotation-like gates with angles out of SPECIAL_ANGLES (bare, as targets of gates with
+    1..2 controls, two-qubit rotations, rotations about an axis) with the odd generic gate in between, Hadamards"""
+    allp = [(fi, i) for fi in range(len(sizes)) for i in range(sizes[fi])]
+    specs = [["H", list(p)] for p in allp if rng.random() < 0.8]
+    for _ in range(rng.randint(1, 4)):
+        specs.append(r4_gate(rng, allp, True))
+        if rng.random() < 0.25:
+            specs.append(rng.choice([["H", list(rng.choice(allp))], ["T", list(rng.choice(allp))], ["Ry", 0.375, list(rng.choice(allp))]]))
+    specs += [["H", list(p)] for p in allp if rng.random() < 0.5]
+    return specs
+
+
+def _special_count(spec, under_control=False):
+    """(number of rotation-like gates whose angle is a non-zero multiple of 2 pi, ... as target of a controlled gate)"""
+    k = spec[0]
+    if k == "C":
+        return _special_count(spec[3], True)
+    th = None
+    if k in ("Rx", "Ry", "Rz", "Rxx", "Ryy", "Rzz"):
+        th = spec[1]
+    elif k == "Rot":
+        th = float(np.sqrt(sum(x * x for x in spec[1])))
+    if th is None or th == 0 or abs(_math.remainder(th, _TWO_PI)) > 1e-9:
+        return (0, 0)
+    odd = int(round(abs(th) / _TWO_PI)) % 2
+    return (odd, odd if under_control else 0)
+
+
+def special_sweep(ctx):
+    """round 4, class 2: rotation gates at angles where a shortcut is tempting (multiples of pi / 2 pi, zero)"""
+    rng = ctx.rng
+    tp = _TWO_PI
+    scripted = [
+        ([2], [["H", [0, 0]], ["C", [1], [[0, 0]], ["Rz", tp, [0, 1]]], ["H", [0, 0]]]),      # = Z on the control: |0> -> |1>
+        ([1], [["H", [0, 0]], ["Rx", tp, [0, 0]]]),
+        ([1], [["Ry", 0.5, [0, 0]], ["Rz", -tp, [0, 0]], ["H", [0, 0]]]),
+        ([2], [["H", [0, 1]], ["C", [0], [[0, 1]], ["Ry", -tp, [0, 0]]], ["H", [0, 1]]]),
+        ([3], [["H", [0, 0]], ["H", [0, 2]], ["C", [1, 1], [[0, 0], [0, 2]], ["Rx", 3 * tp, [0, 1]]], ["H", [0, 0]], ["H", [0, 2]]]),
+        ([1, 1], [["H", [1, 0]], ["C", [1], [[1, 0]], ["Rot", [0.0, 0.0, tp], [0, 0]]], ["H", [1, 0]]]),
+        ([2], [["H", [0, 0]], ["H", [0, 1]], ["Rzz", tp, [0, 0], [0, 1]], ["Rxx", _math.pi, [0, 1], [0, 0]]]),
+        ([2], [["H", [0, 0]], ["Rz", 0.0, [0, 0]], ["C", [1], [[0, 0]], ["Rx", 2 * tp, [0, 1]]], ["Rz", _math.pi, [0, 1]]]),
+    ]
+    progs = list(scripted)
+    for _ in range(320 if ctx.thorough else 80):
+        sizes = rng.choice(R4_SIZES[:9])
+        progs.append((sizes, rand_special_program(rng, sizes)))
+    for n, (sizes, specs) in enumerate(progs):
+        desc = {"kind": "special_angles", "sizes": sizes, "specs": specs, "build": ("append", "ctor", "prepend")[n % 3]}
+        oracle_r4(ctx, sizes, specs, desc)
+        ctx.count("special_angles_program")
+        odd = [_special_count(s_) for s_ in specs]
+        n_odd, n_codd = sum(a for a, _ in odd), sum(b for _, b in odd)
+        if n_odd:
+            ctx.count("special_angles_program_with_rotation_by_an_odd_multiple_of_2pi")
+        if n_codd:
+            ctx.count("special_angles_program_with_CONTROLLED_rotation_by_an_odd_multiple_of_2pi")
+        kinds = set()
+        for s_ in specs:
+            _spec_kinds(s_, kinds)
+        for k_ in sorted(kinds & {"Rx", "Ry", "Rz", "Rxx", "Ryy", "Rzz", "Rot", "C"}):
+            ctx.count("special_angles_gate_" + k_)
+        if n_odd:
+            ctx.nontriv({"kind": "special_angles", "sizes": sizes, "gates": [s_[0] + (":" + s_[3][0] if s_[0] == "C" else "") for s_ in specs],
+                         "odd_multiples_of_2pi": n_odd, "of_them_controlled": n_codd})
+
+
 # ----------------------------------------------------------------------------- the check
 def run(ctx):
     import qib
@@ -2066,8 +2470,7 @@ def run(ctx):
         hist_case(res, sizes, desc["events"], has_mut_after_add)
     oracle_ctor(ctx)
     oracle_array_alias(ctx)
-    ctx.notes.append("observations outside the property text: StatevectorSimulator.run raises AttributeError on circuits "
-                     "containing control instructions (as_matrix/as_tensornet skip them); c.append_circuit(c) never terminates; "
+    ctx.notes.append("observations outside the property text: c.append_circuit(c) never terminates; "
                      "copy() of a ControlledGate/PhaseFactorGate/GeneralGate without bound particles raises ValueError")
     header = HEADER
     if not ok:
@@ -2102,6 +2505,25 @@ def run(ctx):
                      "three cuts, three wire orderings, five registers). Reference: plain numpy matrices from the definitions "
                      "(plain_matrix), einsum embedding - no library object is asked for a matrix")
     structured_sweep(ctx)
+    # round 4 (last again, the streams above keep their random numbers)
+    ctx.rules.append("circuits holding CONTROL INSTRUCTIONS (Barrier on particles / on nothing, Measure with and without classical bits, "
+                     "Delay) among 1..4 ordinary gates, over 1..3 fields of 1..3 sites: instruction first / in the middle / last; on a "
+                     "field no gate touches (the instruction is the only element on it), on a field before any gate touches it (it "
+                     "fixes the field's place in circ.fields()), on the gates' own particles; built by append / constructor / prepend. "
+                     "With fields = circ.fields(): as_matrix(fields) == ordered product of the plain numpy matrices of the GATES "
+                     "(instructions skipped) over all those fields; as_tensornet() has two open axes per wire of those fields and "
+                     "contracts to that matrix; TensorNetworkSimulator returns its column 0 with unit norm; StatevectorSimulator, "
+                     "whenever it returns, returns column 0 (on /repo it raises AttributeError on the instruction: counted, see notes). "
+                     "Non-trivial = the circuit's field list differs from the field list of its gates")
+    ctrl_sweep(ctx)
+    ctx.rules.append("rotation gates at SPECIAL ANGLES (0, +-pi, +-2pi, +-4pi, +-6pi, 2*math.pi*k for k=-3..3 exactly, math.pi*k for "
+                     "k=-6..6; one in five generic): Rx / Ry / Rz / RotationGate about x, y, z, -y and a skew axis, bare and as target "
+                     "of a ControlledGate with 1..2 controls in any control state, Rxx / Ryy / Rzz; between layers of Hadamards so "
+                     "that a sign on one branch shows in column 0; 1..2 fields. StatevectorSimulator == column 0 of as_matrix == "
+                     "column 0 of the ordered product of plain numpy matrices (cos/sin of the half angle) == TensorNetworkSimulator, "
+                     "contracted as_tensornet == as_matrix (network views not for Rxx/Ryy/Rzz: known finding), atol 1e-9. "
+                     "Non-trivial = a rotation by an odd multiple of 2 pi (= -identity) is present")
+    special_sweep(ctx)
 
 
 def replay(ctx, data):
@@ -2121,6 +2543,8 @@ def replay(ctx, data):
         oracle_builders(ctx, inp["sizes"], inp["ops"], inp)
     elif k == "structured":
         oracle_structured(ctx, inp["sizes"], inp["specs"], inp)
+    elif k in R4_PREFIX:
+        oracle_r4(ctx, inp["sizes"], inp["specs"], inp)
     elif k == "ctor":
         oracle_ctor(ctx)
     elif k == "array_alias":
